@@ -21,6 +21,10 @@ class Boom(Exception):
     pass
 
 
+class BaseBoom(BaseException):
+    """an exception that is not an Exception subclass (like KeyboardInterrupt / GeneratorExit / CancelledError)"""
+
+
 def obs_tree():
     L = U.Leaf
     return [{'b': L(1), 'a': L(2), 'c': {'z': L(3), 'y': L(4)}},
@@ -30,15 +34,15 @@ def obs_tree():
             {2: L(13), 1: L(14), 'k': L(15)}]
 
 
-OPS = [['enter', m, n] for m in (True, False) for n in ('G', 'a', 'b')] + [['exit', 'normal'], ['exit', 'raise']]
+OPS = [['enter', m, n] for m in (True, False) for n in ('G', 'a', 'b')] + [['exit', 'normal'], ['exit', 'raise'], ['exit', 'raise_base'], ['exit', 'generator_close']]
 
 
 def op_strategy():
     return st.one_of(
         st.tuples(st.just('enter'), st.booleans(), st.sampled_from(['G', 'a', 'b'])).map(list),
         st.tuples(st.just('enter'), st.booleans(), st.sampled_from(['G', 'a', 'b'])).map(list),
-        st.sampled_from([['exit', 'normal'], ['exit', 'raise']]),
-        st.tuples(st.just('exit_at'), st.integers(0, 3), st.sampled_from(['normal', 'raise'])).map(list),
+        st.sampled_from([['exit', 'normal'], ['exit', 'raise'], ['exit', 'raise_base']]),
+        st.tuples(st.just('exit_at'), st.integers(0, 3), st.sampled_from(['normal', 'raise', 'raise_base'])).map(list),
     )
 
 
@@ -108,7 +112,7 @@ class C13(runner.Prop):
                             idx = len(open_blocks) - 1
                     cm, key, saved = open_blocks.pop(idx)
                     self.close(cm, how, ctx, step)
-                    exc_exit = exc_exit or how == 'raise'
+                    exc_exit = exc_exit or how != 'normal'
                     (S.add if saved else S.discard)(key)
                 states.add((frozenset(S), tuple((k, s) for _c, k, s in open_blocks)))
                 self.observe(S, f'step {step} {op}', ctx, tree if step == len(case['hist']) - 1 else None)
@@ -138,12 +142,17 @@ class C13(runner.Prop):
         if how == 'normal':
             cm.__exit__(None, None, None)
             return
+        if how == 'generator_close':
+            # the way a block is left when a generator holding it is closed / garbage collected
+            how_exc = GeneratorExit
+        else:
+            how_exc = Boom if how == 'raise' else BaseBoom
         try:
-            raise Boom(step)
-        except Boom as e:
+            raise how_exc(step)
+        except (Boom, BaseBoom, GeneratorExit) as e:
             try:
                 swallowed = cm.__exit__(type(e), e, e.__traceback__)
-            except Boom as e2:
+            except (Boom, BaseBoom, GeneratorExit) as e2:
                 swallowed = False
                 if e2 is not e:
                     ctx.fail('exit/exception_replaced', repr(e2))
